@@ -108,9 +108,12 @@ def run(ctx):
     proof_broken = not ok
 
     n = int(os.environ.get("VERIF_C20_N", "600" if ctx.quick() else "20000"))
+    # nested family (callers inside another cache's callable, 2-3 caches): scenario ids n .. n+nn-1
+    nn = int(os.environ.get("VERIF_C20_NESTED", "240" if ctx.quick() else "4000"))
     out = os.path.join(ctx.tmp, "c20.tsv")
-    env = {"VERIF_OUT": out, "VERIF_N": str(n), "VERIF_SEED": str(ctx.seed)}
-    rc, o = ctx.go_overlay_test("", {"zz_verif_c20_test.go": os.path.join(HARNESS, "overlay/root/zz_verif_c20_test.go")},
+    env = {"VERIF_OUT": out, "VERIF_N": str(n), "VERIF_C20_NESTED": str(nn), "VERIF_SEED": str(ctx.seed)}
+    rc, o = ctx.go_overlay_test("", {"zz_verif_c20_test.go": os.path.join(HARNESS, "overlay/root/zz_verif_c20_test.go"),
+                                     "zz_verif_c20_nested_test.go": os.path.join(HARNESS, "overlay/root/zz_verif_c20_nested_test.go")},
                                 "^TestVerifC20$", env)
     if rc != 0 or not os.path.exists(out):
         ctx.log(o[-3000:])
@@ -121,12 +124,18 @@ def run(ctx):
 
     scen = {}
     oracles = []
+    nested_input = {}   # raw scenario id (>= n) -> readable description of the whole nested scenario
+    nested_ended = set()
     for line in open(out):
         f = line.rstrip("\n").split("\t")
         if f[0] == "ORACLE":
             oracles.append(f)
         elif f[0] == "S":
             scen[int(f[1])] = f
+        elif f[0] == "N":
+            nested_input[int(f[1])] = f[2]
+        elif f[0] == "END" and int(f[1]) >= n:
+            nested_ended.add(int(f[1]))
     ids = sorted(scen)
     cases = []
     dist = {"goroutines": {}, "keys": {}, "failing_callables": {}, "mode": {}, "invocations_observed": {},
@@ -135,6 +144,13 @@ def run(ctx):
     distinct = set()
     raced_total = 0
     raced_scen = 0
+    PROJ = 500000       # ids of the per-cache projections of the nested family: PROJ + 4*j + cache
+    nst = {"scenarios": 0, "caches": {}, "max_nesting_depth": {}, "family": {},
+           "cache_histories_replayed": 0,
+           "invocations_by_a_caller_inside_another_caches_callable": 0,
+           "of_those_with_another_callers_call_on_the_same_key_in_flight": 0,
+           "cache_histories_with_such_a_raced_nested_invocation": 0}
+    nested_seen = set()
 
     def bump(d, k):
         d[str(k)] = d.get(str(k), 0) + 1
@@ -177,19 +193,40 @@ def run(ctx):
         if r:
             raced_scen += 1
             distinct.add((f[5], f[6]))
+        if i >= PROJ and len(f) > 18:
+            j = (i - PROJ) // 4
+            if j not in nested_seen:
+                nested_seen.add(j)
+                nst["scenarios"] += 1
+                bump(nst["caches"], f[14])
+                bump(nst["max_nesting_depth"], f[15])
+                bump(nst["family"], f[17])
+            nst["cache_histories_replayed"] += 1
+            nst["invocations_by_a_caller_inside_another_caches_callable"] += int(f[16])
+            nst["of_those_with_another_callers_call_on_the_same_key_in_flight"] += int(f[18])
+            if int(f[18]):
+                nst["cache_histories_with_such_a_raced_nested_invocation"] += 1
     dist["scenarios_with_a_racing_call"] = raced_scen
     dist["racing_calls"] = raced_total
+    dist["nested_family"] = nst
+    n_base_cases = sum(1 for i in ids if i < PROJ)
 
     ctx.coverage["evaluations"] = len(cases)
     ctx.coverage["distinct_nontrivial"] = len(distinct)
-    ctx.coverage["rule"] = ("%d seeded scenarios (12 enumerated boundary plans + one enumerated plan per value class, per key "
+    ctx.coverage["rule"] = ("%d observed single-cache histories = %d seeded scenarios (12 enumerated boundary plans + one enumerated plan per value class, per key "
                             "style and per way of failing, each in both modes + random plans: 2-16 goroutines, 1-3 keys, "
                             "1-3 sequential calls each, failure probability in {0,.3,.6,.9,1}, values plain ints / one value "
                             "class / a class per call, key style plain or random, callable shapes builtin or mixed, seeded "
                             "Gosched/microsecond sleeps before the call and inside the callable), alternately on a directly "
                             "constructed cache and through Cache()/.once via starlark.Call; non-trivial = at least one call on a key was in "
                             "flight while another goroutine's callable for that key completed; distinct by (plan, history)"
-                            % len(cases))
+                            " + the per-cache histories of %d nested scenarios (2-3 caches sharing the key strings; a callable may "
+                            "call once on a higher-ranked cache with the thread it was given, to depth 2, returning its own value "
+                            "or passing on the nested result/error; 2-8 goroutines mixing nested and direct callers of every cache; "
+                            "18 enumerated plans + random ones; gated callables wait for a second caller of their key; every "
+                            "cache's history is checked by the single-cache oracles and replayed by the single-cache model, "
+                            "cf. theorem nested_projection)"
+                            % (len(cases), n_base_cases, nst["scenarios"]))
     ctx.coverage["exhaustive"] = False
     ctx.coverage["correspondence"]["distribution"] = dist
     ctx.add_samples([[scen[i][2], scen[i][5], scen[i][6], scen[i][7]] for i in ids[12:15] + ids[-2:]])
@@ -197,6 +234,32 @@ def run(ctx):
     for f in oracles:
         sid = int(f[2]) if len(f) > 2 and f[2].lstrip("-").isdigit() else -1
         s = scen.get(sid)
+        nested = None
+        if sid >= PROJ and s and len(s) > 13:
+            nested = s[13]
+        elif sid in nested_input:
+            nested = nested_input[sid]
+        if nested is not None:
+            raw = n + (sid - PROJ) // 4 if sid >= PROJ else sid
+            ctx.violation("implementation violates C20 oracle %s (nested scenario %d%s)"
+                          % (f[1], raw, ", cache %d" % ((sid - PROJ) % 4) if sid >= PROJ else ""),
+                          {"oracle": f[1], "scenario": raw, "detail": f[3:] if len(f) > 3 else [],
+                           "input": nested,
+                           "mode": s[2] if s else None,
+                           "calls_made_on_this_cache": s[5] if s else None,
+                           "history_of_this_cache": s[6] if s else None,
+                           "final_entries_of_this_cache": s[7] if s else None,
+                           "keys": s[8] if s else None,
+                           "key_style": s[11] if s else None,
+                           "other_cache_histories": {str((q - PROJ) % 4): [scen[q][6], scen[q][7]]
+                                                     for q in range(PROJ + 4 * (raw - n), PROJ + 4 * (raw - n) + 4)
+                                                     if q in scen and q != sid},
+                           "value_code": "values are codes: kind*1000000+payload (kind 0 = the int itself), see c20Kinds",
+                           "how": "VERIF_SEED=%d VERIF_C20_N=%d, nested scenario id %d (= index %d of c20GenNested) of "
+                                  "harness/overlay/root/zz_verif_c20_nested_test.go; history: per goroutine g and key k, "
+                                  "c<g>:<k> call, b/e callable begin/end (e carries the value, -1 = failed), r return"
+                                  % (ctx.seed, n, raw, raw - n)})
+            continue
         ctx.violation("implementation violates C20 oracle %s (scenario %d)" % (f[1], sid),
                       {"oracle": f[1], "scenario": sid, "detail": f[3:] if len(f) > 3 else [],
                        "mode": s[2] if s else None, "plan": s[5] if s else None, "history": s[6] if s else None,
@@ -250,8 +313,9 @@ def run(ctx):
     ctx.coverage["correspondence"]["cases"] = len(cases)
     ctx.coverage["correspondence"]["mismatches"] = len(mism)
     ctx.log("scenarios=%d racing=%d mismatches=%d oracle_failures=%d" % (len(cases), raced_scen, len(mism), len(oracles)))
-    if len(cases) < n and not oracles:
-        ctx.violation("harness produced %d of %d scenarios" % (len(cases), n),
+    if (n_base_cases < n or len(nested_ended) < nn) and not oracles:
+        ctx.violation("harness produced %d of %d scenarios and %d of %d nested scenarios"
+                      % (n_base_cases, n, len(nested_ended), nn),
                       {"theorem_or_correspondence": "C20 correspondence harness (cache)", "output": o[-2000:]},
                       found_input=False)
     if mism and not oracles:
